@@ -202,6 +202,9 @@ class Engine:
         for key, f in self.fns.items():
             name = f.name
             m = re.search(r'<impl at ([^:>]+):(\d+):(\d+): (\d+):(\d+)>::(.*)$', name)
+            if m and '<impl at ' in m.group(6):
+                # an impl block local to a function body: index it by its own (innermost) header
+                m = re.search(r'.*<impl at ([^:>]+):(\d+):(\d+): (\d+):(\d+)>::(.*)$', name)
             if not m:
                 self.byname.setdefault(name, f)
                 parts = name.split('::')
